@@ -50,6 +50,9 @@ HARNESSES = {
     "filter_suffix_tail_catalog": ("filter", False, ["C14", "C07"], "suffix must be the extension, not a tail of the name", "catalogue entry: .catalog vs suffix log"),
     "filter_suffix_tail_tgz": ("filter", False, ["C14", "C07"], "suffix must be the extension, not a tail of the name", "catalogue entry: .tgz vs gz"),
     "filter_suffix_no_dot": ("filter", False, ["C14", "C07"], "suffix must be the extension, not a tail of the name", "catalogue entry: extension-less name ending in log"),
+    "level_sort_sorts_by_descending_name_length": ("sort", False, ["C02"], "real Vec<ModuleFilter>::level_sort: descending name length, default entry last, a permutation (the list invariant assumed by Verus unit spec, lemma_longest_prefix)", "3 entries, name lengths 0..3"),
+    "max_level_is_the_maximum": ("sort", False, ["C02"], "real LogSpecification::max_level == maximum of the entries' filters (all 216 filter triples)", "3 entries"),
+    "max_level_of_the_empty_specification_is_off": ("sort", False, ["C02"], "real LogSpecification::max_level of an empty list is Off", "0 entries"),
     "ts_infix_member": ("tsinfix", False, ["C10", "C06"], "real ts_infix_from_path", "catalogue entry: standard timestamp name"),
     "ts_infix_short_name": ("tsinfix", False, ["C10", "C06"], "real ts_infix_from_path does not panic on a shorter name (regression check for F5)", "catalogue entry: number-named file"),
     "ts_infix_restart_sibling": ("tsinfix", False, ["C10", "C06"], "real ts_infix_from_path", "catalogue entry: .restart sibling"),
